@@ -478,6 +478,20 @@ func VerifC24Schedule() {
 	verifC24Run(k, batchSize, timeout, maxSize)
 }
 
+// VerifC24Preempt: the same schedules, shorter, but the executor may also take the processor
+// away from a running goroutine at any of its synchronisation operations (one preemption per
+// path in the quick tier, two in the thorough tier): interleavings inside Write/run, not only
+// between whole operations. Counterexamples are replayed natively with the forced schedule.
+func VerifC24Preempt() {
+	k := 2 + verifTier()
+	batchSize := 1 + verifChoice("batchSize", 2)
+	maxSize := 1
+	if verifChoice("maxSizeBig", 2) == 1 {
+		maxSize = 3
+	}
+	verifC24Run(k, batchSize, 0, maxSize)
+}
+
 // VerifC24Deep (thorough tier): schedules of 6 actions on the configuration in which callers
 // park soonest (capacity 1), batch size 2, with a timeout.
 func VerifC24Deep() {
